@@ -513,7 +513,7 @@ def tcp_passive_case(res, stream, off, case_id):
                     str(p.connection_state.current))
         call_bounded(p.disable, 3)
         return
-    if not M.wait_until(lambda: len(p._receive_buffer) == 0 and not p._connection._thread_running, 3.0):
+    if not M.wait_until(lambda: len(p._receive_buffer) == 0 and torn_down(p), 5.0):
         res.violate("c09-stale-bytes", "receive buffer not empty / connection thread still running 3 s after NOT_CONNECTED", case, 0,
                     {"buffer": len(p._receive_buffer), "thread_running": p._connection._thread_running})
     # new connection, select
@@ -580,7 +580,7 @@ def tcp_active_case(res, stream, off, case_id):
                     str(p.connection_state.current))
         call_bounded(p.disable, 3)
         return
-    if not M.wait_until(lambda: len(p._receive_buffer) == 0 and not p._connection._thread_running, 3.0):
+    if not M.wait_until(lambda: len(p._receive_buffer) == 0 and torn_down(p), 5.0):
         res.violate("c09-stale-bytes", "receive buffer not empty / connection thread still running 3 s after NOT_CONNECTED", case, 0,
                     {"buffer": len(p._receive_buffer), "thread_running": p._connection._thread_running})
     r = serve_one(None)                                       # reconnect after T5 (1 s), selects again
@@ -685,6 +685,14 @@ def idle_server_witness(res, drv):
             res.violate("c09-disable-hang", "passive connection without a peer: disable() did not return within 3 s", case, "returns", d)
 
 
+def torn_down(p) -> bool:
+    """the previous connection's thread has finished ALL of its close handling (`_on_disconnected` incl. `ProtocolDispatcher.stop()`, the
+    reset of the transport's flags).  The scenarios that test something else connect a new peer only after this: a peer that connects while
+    the teardown is still running is the recorded finding c09-relisten-overlaps-teardown (`overlap_witness`)."""
+    rt = p._thread._receiver_thread
+    return not p._connection._thread_running and not (rt is not None and rt.is_alive()) and not p._connection._stop_thread
+
+
 def connect_peer(port, tries=60):
     for _ in range(tries):
         try:
@@ -735,8 +743,9 @@ def relisten_case(res, local_first: bool):
             return
     else:
         peer.close()
-        if not M.wait_until(lambda: p.connection_state.current == ConnectionState.NOT_CONNECTED, 6.0):
-            res.violate("c09-close-hang", "NOT_CONNECTED not reached within 6 s of the peer's close", case, "NOT_CONNECTED", str(p.connection_state.current))
+        if not M.wait_until(lambda: p.connection_state.current == ConnectionState.NOT_CONNECTED and torn_down(p), 8.0):
+            res.violate("c09-close-hang", "NOT_CONNECTED / complete teardown not reached within 8 s of the peer's close", case, "NOT_CONNECTED",
+                        diag(p))
             call_bounded(p.disable, 3)
             return
     peer2 = connect_peer(port, tries=80)
@@ -811,16 +820,92 @@ def idle_cycle_case(res, active: bool):
         res.violate("c09-no-linktest-rsp", "Linktest.req on the established connection is not answered within 3 s", case, "Linktest.rsp(77)",
                     [(b.header.s_type.value, b.header.system) for b in got])
     peer.close()
-    if not M.wait_until(lambda: p.connection_state.current == ConnectionState.NOT_CONNECTED, 6.0):
-        res.violate("c09-close-hang", "NOT_CONNECTED not reached within 6 s of the peer's close", case, "NOT_CONNECTED", str(p.connection_state.current))
+    if not M.wait_until(lambda: p.connection_state.current == ConnectionState.NOT_CONNECTED and torn_down(p), 8.0):
+        res.violate("c09-close-hang", "NOT_CONNECTED / complete teardown not reached within 8 s of the peer's close", case, "NOT_CONNECTED", diag(p))
     if not call_bounded(p.disable, 8):
         res.violate("c09-disable-hang", "final disable() did not return within 8 s", case, "returns", diag(p))
     if srv is not None:
         srv.close()
 
 
+def overlap_witness(res, drv):
+    """A peer connects to the passive endpoint WHILE the previous connection is still being torn down.  The window exists because
+    `TcpServerConnection` restarts its listener from an `on_disconnected` listener that runs before `HsmsProtocol._on_disconnected`; it is
+    held open here by pausing the old connection's thread at its call of `ProtocolDispatcher.stop()`."""
+    port = free_port()
+    p = secsgem.hsms.HsmsProtocol(secsgem.hsms.HsmsSettings(address="127.0.0.1", port=port, connect_mode=secsgem.hsms.HsmsConnectMode.PASSIVE))
+    case = {"kind": "witness", "name": "relisten-overlaps-teardown"}
+    if not call_bounded(p.enable, 5):
+        res.violate("c09-enable-hang", "enable() did not return within 5 s", case)
+        return
+    peer = connect_peer(port)
+    if peer is None or not select_on(peer, p, 1)[0]:
+        res.violate("c09-reselect", "first connection could not be established / selected", case)
+        call_bounded(p.disable, 5)
+        return
+    gate, at_stop = threading.Event(), threading.Event()
+    real_stop = p._thread.stop
+
+    def held_stop():
+        at_stop.set()
+        gate.wait(6)
+        return real_stop()
+    p._thread.stop = held_stop
+    peer.close()
+    if not at_stop.wait(4):
+        res.notes.append("witness relisten-overlaps-teardown: the old connection's thread did not reach ProtocolDispatcher.stop(); not replayed")
+        p._thread.stop = real_stop
+        gate.set()
+        call_bounded(p.disable, 5)
+        return
+    # the old teardown is paused: can a new peer connect now?
+    peer2, t0 = None, time.monotonic()
+    while peer2 is None and time.monotonic() - t0 < 1.0:
+        try:
+            c = socket.create_connection(("127.0.0.1", port), timeout=0.3)
+            if c.getsockname() == c.getpeername():          # TCP self-connect to a port nobody listens on
+                c.close()
+            else:
+                peer2 = c
+        except OSError:
+            time.sleep(0.02)
+    during = peer2 is not None
+    if during:
+        time.sleep(0.3)                                      # accepted, `_on_connected` runs next to the paused teardown
+    p._thread.stop = real_stop
+    gate.set()
+    M.wait_until(lambda: torn_down(p) or during, 3.0)
+    if peer2 is None:
+        peer2 = connect_peer(port, tries=80)
+    ok, got = (False, [])
+    if peer2 is not None:
+        try:
+            ok, got = select_on(peer2, p, 2)
+        except OSError:
+            ok = False
+    res.count(("witness", "overlap"), sample={"op": "witness replay", "name": "peer connects during the teardown of the previous connection",
+                                              "accepted_during_teardown": during, "new_connection_selected": ok})
+    res.bump("witness", f"relisten-overlaps-teardown: accepted during teardown={during} new connection selected={ok}")
+    if drv.available and during and not ok:
+        res.traces_validated += 1      # the model's witness is a theorem (overlapping_connect_kills_new_connection); nothing to run in the driver
+    if not ok:
+        actual = {"accepted_during_teardown": during, "frames_on_new_connection": [(b.header.s_type.value, b.header.system) for b in got], **diag(p)}
+        if during:
+            res.violate("c09-relisten-overlaps-teardown", "a peer accepted while the previous connection is still being torn down: the new "
+                        "connection is not selected (the old connection's teardown stops / closes it, or its leftover flags do)", case,
+                        "Select.rsp(2), CONNECTED_SELECTED", actual)
+        else:
+            res.violate("c09-reselect", "new connection after a complete teardown: Select.req not answered / not SELECTED", case,
+                        "Select.rsp(2), CONNECTED_SELECTED", actual)
+    M.wait_until(lambda: not diag(p)["accept_or_connect_thread_alive"], 2.0)
+    call_bounded(p.disable, 4)
+    if peer2 is not None:
+        peer2.close()
+
+
 def tcp_part(res, rng, drv, big):
     f13_witness(res, drv)
+    overlap_witness(res, drv)
     idle_server_witness(res, drv)
     relisten_case(res, True)
     relisten_case(res, False)
@@ -869,7 +954,7 @@ def main():
                 "bounded. distinct = distinct (state, stream, offset); every case is non-trivial")
     # `--replay`: a replay re-runs the recorded cases and the deterministic sweep; the parts that (can) show the open finding
     # c09-stale-reply-next-connection and the corpus witnesses of repaired findings run only if the replay file is about one of them
-    known = {"c09-tcp-disable-hang", "c09-tcp-server-idle-disable-hang", "c09-send-failure-strands-queue", "c09-stale-reply-next-connection"}
+    known = {"c09-relisten-overlaps-teardown", "c09-tcp-disable-hang", "c09-tcp-server-idle-disable-hang", "c09-send-failure-strands-queue", "c09-stale-reply-next-connection"}
     rec_classes = {v.get("class") for v in recorded}
     replaying = a.replay is not None
     if recorded:
@@ -881,7 +966,7 @@ def main():
         M.guarded(res, "witness send failure", lambda: witness_send_failure(res, drv))
     if not replaying or "c09-stale-reply-next-connection" in rec_classes:
         M.guarded(res, "witness stale reply", lambda: witness_stale_reply(res, drv))
-    if not replaying or rec_classes & {"c09-tcp-disable-hang", "c09-tcp-server-idle-disable-hang", "c09-disable-hang", "c09-enable-hang", "c09-no-listen", "c09-no-reconnect", "c09-no-connect", "c09-reselect", "c09-state", "c09-no-linktest-rsp", "c09-no-select-req"} \
+    if not replaying or rec_classes & {"c09-relisten-overlaps-teardown", "c09-tcp-disable-hang", "c09-tcp-server-idle-disable-hang", "c09-disable-hang", "c09-enable-hang", "c09-no-listen", "c09-no-reconnect", "c09-no-connect", "c09-reselect", "c09-state", "c09-no-linktest-rsp", "c09-no-select-req"} \
             or any((v.get("case") or {}).get("kind", "").startswith("tcp") for v in recorded):
         M.guarded(res, "tcp", lambda: tcp_part(res, rng.fork("tcp"), drv, big))
     if replaying:
